@@ -23,7 +23,7 @@ MX = ["<svg>", "<math>", "<mtext>", "<mi>", "<mglyph>", "<annotation-xml encodin
       "<style>", "<script>", "<noscript>", "<textarea>", "<xmp>", "<iframe>", "<noembed>", "<noframes>", "<plaintext>", "<listing>",
       "<table>", "<select>", "<option>", "<p>", "</p>", "<a>", "<b>", "<br>", "</br>", "<img src=x onerror=1>", "<!--", "-->",
       "<![CDATA[", "]]>", "</style>", "</title>", "</svg>", "</math>", "x", "</textarea>", "<a href=javascript:x>", "</table>", "</select>",
-      "&lt;img src=x onerror=1&gt;", "</noscript>", "</script>"]
+      "&lt;img src=x onerror=1&gt;", "</noscript>", "</script>", "&lt;/textarea&gt;", "&lt;/title&gt;", "&lt;/style&gt;", "&lt;!--"]
 tw.THEMES.setdefault("MX", MX)
 
 IMPLIED = frozenset(["html", "head", "body", "tbody", "colgroup", "tr"])
